@@ -58,6 +58,11 @@ def check(ctx):
     _psm.check_decode_memos(ctx)
     from ..rules import shapes as _shr
     _shr.check_sibling_reductions(ctx)
+    # design-vector position vs selection-choice position (forced choices have no variable): the decode keeps the
+    # two index spaces apart
+    from ..rules import indexspace as _ix21
+    _ix21.check_index_spaces(ctx, [f'{GP}.get_graph', f'{GP}._update_comb_fixed_mask'])
+    _ix21.check_translation(ctx)
 
 
 from ..selftest import V  # noqa: E402
